@@ -39,18 +39,21 @@ theorem ct_emit_ctl (s : St) (e : Ev) (h : e.isCtl = true) : ct (s.emit e) = e :
 
 @[simp] theorem ct_push (s : St) (fs : List Frame) : ct (s.push fs) = ct s := rfl
 
+@[simp] theorem canaryEv_isCtl (s : St) (e : Nat) : (canaryEv s e).isCtl = false := by
+  unfold canaryEv; split <;> rfl
+
 /-! ### helpers that only add quiet events -/
 
 @[simp] theorem ct_killCanary (s : St) (e : Nat) : ct (killCanary s e) = ct s := by
   unfold killCanary; split
-  · exact ct_emit_quiet _ _ rfl
+  · exact ct_emit_quiet _ _ (by first | rfl | exact canaryEv_isCtl _ _)
   · rfl
 
 @[simp] theorem ct_killData (s : St) (e : Nat) : ct (killData s e) = ct s := by
   unfold killData; split
   · dsimp only; split
     · rfl
-    · exact ct_emit_quiet _ _ rfl
+    · exact ct_emit_quiet _ _ (by first | rfl | exact canaryEv_isCtl _ _)
   · rfl
 
 @[simp] theorem ct_kill (s : St) (e : Nat) : ct (kill s e) = ct s := by
@@ -112,7 +115,7 @@ theorem ct_eq_of {s s' : St} (h : s'.trace.filter Ev.isCtl = s.trace.filter Ev.i
   cases c <;> simp only [applyCmd] <;> (repeat' split) <;>
     first
     | rfl
-    | (apply ct_emit_quiet; rfl)
+    | (apply ct_emit_quiet; first | rfl | exact canaryEv_isCtl _ _)
     | (simp; done)
     | (apply ct_of_trace; simp [St.push, St.fresh, setTbl]; done)
     | (simp; exact ct_of_trace (newArc_trace _ _))
@@ -123,16 +126,16 @@ namespace Cobweb
 
 theorem ct_preBody (s : St) (sys : Nat) (k : Kind) : ct (preBody s sys k) = Ev.enter sys :: ct s := by
   unfold preBody; dsimp only
-  rw [ct_emit_quiet _ _ rfl]
+  rw [ct_emit_quiet _ _ (by first | rfl | exact canaryEv_isCtl _ _)]
   split
   · rw [ct_emit_ctl _ _ rfl, ct_setupK]
-  · rw [ct_emit_quiet _ _ rfl, ct_emit_ctl _ _ rfl, ct_setupK]
+  · rw [ct_emit_quiet _ _ (by first | rfl | exact canaryEv_isCtl _ _), ct_emit_ctl _ _ rfl, ct_setupK]
 
 theorem ct_foldl_drop (l : List Nat) (t : St) :
     ct (l.foldl (fun (s : St) pid => s.emit (Ev.dropPayload pid)) t) = ct t := by
   induction l generalizing t with
   | nil => rfl
-  | cons x l ih => exact (ih _).trans (ct_emit_quiet _ _ rfl)
+  | cons x l ih => exact (ih _).trans (ct_emit_quiet _ _ (by first | rfl | exact canaryEv_isCtl _ _))
 
 theorem ct_startBody_ex (s : St) (sys : Nat) (k : Kind) :
     ∃ obs, ct (startBody s sys k) = Ev.body sys (s.info sys).nruns obs :: Ev.enter sys :: ct s := by
@@ -323,14 +326,14 @@ theorem cntF_runFrame (p : Prog) (hh : Hist) {s : St} {f : Frame} (h : CntF s f)
   | bodyActs sys k i acc =>
     simp only [runFrame, doBodyActs]
     split
-    · exact cnt_gen h (by lt) (ct_emit_quiet _ _ rfl) rfl (fs := [.cleanup k, .flush, .batch acc]) rfl (by lts)
+    · exact cnt_gen h (by lt) (ct_emit_quiet _ _ (by first | rfl | exact canaryEv_isCtl _ _)) rfl (fs := [.cleanup k, .flush, .batch acc]) rfl (by lts)
     · rename_i a _
       exact cnt_gen h (by lt) (by simp) (by simp [St.push]) (fs := [.bodyActs sys k (i + 1) (acc ++ (enqueue s a).2)])
         (by simp [St.push]) (by lts)
   | exclActs sys i =>
     simp only [runFrame, doExclActs]
     split
-    · exact cnt_gen h (by lt) (ct_emit_quiet _ _ rfl) rfl (fs := [.flush]) rfl (by lts)
+    · exact cnt_gen h (by lt) (ct_emit_quiet _ _ (by first | rfl | exact canaryEv_isCtl _ _)) rfl (fs := [.flush]) rfl (by lts)
     · rename_i t _
       exact cnt_gen h (by lt) rfl rfl (fs := [.runnerStart t .plain, .exclActs sys (i + 1)]) rfl (by lts)
     · rename_i a _ _
@@ -352,7 +355,7 @@ theorem cntF_runFrame (p : Prog) (hh : Hist) {s : St} {f : Frame} (h : CntF s f)
     exact cnt_gen h (by lt) (by simp only [runFrame, doOnceTail, ct_push]; exact (ct_of_trace rfl).trans (ct_despawn1 s sys))
       (by simp [runFrame]) (fs := [.flush, .dropCallback sys]) (by simp [runFrame, doOnceTail, St.push]) (by lts)
   | dropCallback sys =>
-    exact cnt_gen h (by lt) (ct_emit_quiet _ _ rfl) (by simp [runFrame]) (fs := []) (by simp [runFrame]) lights_nil
+    exact cnt_gen h (by lt) (ct_emit_quiet _ _ (by first | rfl | exact canaryEv_isCtl _ _)) (by simp [runFrame]) (fs := []) (by simp [runFrame]) lights_nil
   | runnerStart sys k =>
     refine cnt_of h [.applied sys] s.buffered [.gc, .poll, .runnerLookup sys k s.counter] ?_ (by simp [runFrame])
       (by simp [runFrame, doRunnerStart, St.push]) (by bal) (by bal) (by bal)
@@ -393,16 +396,16 @@ theorem cntF_runFrame (p : Prog) (hh : Hist) {s : St} {f : Frame} (h : CntF s f)
   | reinsert sys idx =>
     simp only [runFrame, doReinsert]
     split
-    · exact cnt_gen h (by lt) (by simp only [ct_push]; exact ct_emit_quiet _ _ rfl) (by simp [St.push, St.emit])
+    · exact cnt_gen h (by lt) (by simp only [ct_push]; exact ct_emit_quiet _ _ (by first | rfl | exact canaryEv_isCtl _ _)) (by simp [St.push, St.emit])
         (fs := [.poll, .replayTake sys idx]) (by simp [St.push, St.emit]) (by lts)
     · split <;>
         exact cnt_gen h (by lt)
-          (by simp only [ct_push]; first | exact ct_emit_quiet _ _ rfl | exact (ct_emit_quiet _ _ rfl).trans (ct_emit_quiet _ _ rfl))
+          (by simp only [ct_push]; first | exact ct_emit_quiet _ _ (by first | rfl | exact canaryEv_isCtl _ _) | exact (ct_emit_quiet _ _ (by first | rfl | exact canaryEv_isCtl _ _)).trans (ct_emit_quiet _ _ (by first | rfl | exact canaryEv_isCtl _ _)))
           (by simp [St.push, St.emit]) (fs := [.despawnWork [(sys, false)], .gc, .poll, .replayTake sys idx])
           (by simp [St.push, St.emit]) (by lts)
     · split <;>
         exact cnt_gen h (by lt)
-          (by simp only [ct_push]; first | exact ct_emit_quiet _ _ rfl | exact (ct_emit_quiet _ _ rfl).trans (ct_emit_quiet _ _ rfl))
+          (by simp only [ct_push]; first | exact ct_emit_quiet _ _ (by first | rfl | exact canaryEv_isCtl _ _) | exact (ct_emit_quiet _ _ (by first | rfl | exact canaryEv_isCtl _ _)).trans (ct_emit_quiet _ _ (by first | rfl | exact canaryEv_isCtl _ _)))
           (by simp [St.push, St.emit]) (fs := [.gc, .poll, .replayTake sys idx])
           (by simp [St.push, St.emit]) (by lts)
   | replayTake sys idx =>
@@ -423,14 +426,14 @@ theorem cntF_runFrame (p : Prog) (hh : Hist) {s : St} {f : Frame} (h : CntF s f)
     simp only [runFrame, doFinish]
     split
     · split
-      · exact cnt_gen h (by lt) (ct_emit_quiet _ _ rfl) (by simp [St.emit]) (fs := []) (by simp [St.emit]) lights_nil
+      · exact cnt_gen h (by lt) (ct_emit_quiet _ _ (by first | rfl | exact canaryEv_isCtl _ _)) (by simp [St.emit]) (fs := []) (by simp [St.emit]) lights_nil
       · rename_i b bs hb
         refine cnt_of h [.discard b.1] bs (abortFrames b.1 b.2 ++ [Frame.finish sys idx]) ?_ (by simp [St.push, St.emit])
           (by simp [St.push, St.emit]) (by bal) ?_ (by bal)
         · simp only [ct_push]; exact ct_emit_ctl _ _ rfl
         · have hb' : s.buffered = b :: bs := hb
           rw [hb']; bal
-    · exact cnt_gen h (by lt) (ct_emit_quiet _ _ rfl) (by simp [St.emit]) (fs := []) (by simp [St.emit]) lights_nil
+    · exact cnt_gen h (by lt) (ct_emit_quiet _ _ (by first | rfl | exact canaryEv_isCtl _ _)) (by simp [St.emit]) (fs := []) (by simp [St.emit]) lights_nil
   | abort sys k =>
     exact cnt_gen h (by lt) (by simp [runFrame]) (by simp [runFrame]) (fs := []) (by simp [runFrame]) lights_nil
   | gc =>
@@ -620,12 +623,12 @@ theorem good_runFrame (p : Prog) (hh : Hist) (s : St) (f : Frame) (hg : ¬ badCa
   | bodyActs sys k i acc =>
     simp only [runFrame, doBodyActs]
     split
-    · exact good_same (ct_emit_quiet _ _ rfl)
+    · exact good_same (ct_emit_quiet _ _ (by first | rfl | exact canaryEv_isCtl _ _))
     · exact good_same (by simp)
   | exclActs sys i =>
     simp only [runFrame, doExclActs]
     split
-    · exact good_same (ct_emit_quiet _ _ rfl)
+    · exact good_same (ct_emit_quiet _ _ (by first | rfl | exact canaryEv_isCtl _ _))
     · exact good_same rfl
     · rename_i a _ _; exact good_same (by simp only [ct_push]; exact (ct_of_trace rfl).trans (ct_enqueue s a))
   | topActs t i =>
@@ -635,7 +638,7 @@ theorem good_runFrame (p : Prog) (hh : Hist) (s : St) (f : Frame) (hg : ¬ badCa
     · rename_i a _; exact good_same (by simp only [ct_push]; exact (ct_of_trace rfl).trans (ct_enqueue s a))
   | cleanup k => exact good_same (by simp [runFrame])
   | onceTail sys => exact good_same (by simp only [runFrame, doOnceTail, ct_push]; exact (ct_of_trace rfl).trans (ct_despawn1 s sys))
-  | dropCallback sys => exact good_same (ct_emit_quiet _ _ rfl)
+  | dropCallback sys => exact good_same (ct_emit_quiet _ _ (by first | rfl | exact canaryEv_isCtl _ _))
   | runnerStart sys k =>
     exact good_one (.applied sys) (by simp only [runFrame, doRunnerStart, ct_push]; exact ct_emit_ctl _ _ rfl) rfl
   | runnerLookup sys k idx => exact absurd rfl (hnl sys k idx)
@@ -644,11 +647,11 @@ theorem good_runFrame (p : Prog) (hh : Hist) (s : St) (f : Frame) (hg : ¬ badCa
   | reinsert sys idx =>
     simp only [runFrame, doReinsert]
     split
-    · exact good_same (by simp only [ct_push]; exact ct_emit_quiet _ _ rfl)
+    · exact good_same (by simp only [ct_push]; exact ct_emit_quiet _ _ (by first | rfl | exact canaryEv_isCtl _ _))
     · split <;> exact good_same
-        (by simp only [ct_push]; first | exact ct_emit_quiet _ _ rfl | exact (ct_emit_quiet _ _ rfl).trans (ct_emit_quiet _ _ rfl))
+        (by simp only [ct_push]; first | exact ct_emit_quiet _ _ (by first | rfl | exact canaryEv_isCtl _ _) | exact (ct_emit_quiet _ _ (by first | rfl | exact canaryEv_isCtl _ _)).trans (ct_emit_quiet _ _ (by first | rfl | exact canaryEv_isCtl _ _)))
     · split <;> exact good_same
-        (by simp only [ct_push]; first | exact ct_emit_quiet _ _ rfl | exact (ct_emit_quiet _ _ rfl).trans (ct_emit_quiet _ _ rfl))
+        (by simp only [ct_push]; first | exact ct_emit_quiet _ _ (by first | rfl | exact canaryEv_isCtl _ _) | exact (ct_emit_quiet _ _ (by first | rfl | exact canaryEv_isCtl _ _)).trans (ct_emit_quiet _ _ (by first | rfl | exact canaryEv_isCtl _ _)))
   | replayTake sys idx => exact good_same rfl
   | replayLoop sys r kept idx =>
     simp only [runFrame, doReplayLoop]
@@ -662,12 +665,12 @@ theorem good_runFrame (p : Prog) (hh : Hist) (s : St) (f : Frame) (hg : ¬ badCa
     split
     · rename_i hidx
       split
-      · exact good_same (ct_emit_quiet _ _ rfl)
+      · exact good_same (ct_emit_quiet _ _ (by first | rfl | exact canaryEv_isCtl _ _))
       · rename_i b bs hb
         exfalso; apply hg
         have hb' : s.buffered = b :: bs := hb
         exact ⟨hidx, by rw [hb']; simp⟩
-    · exact good_same (ct_emit_quiet _ _ rfl)
+    · exact good_same (ct_emit_quiet _ _ (by first | rfl | exact canaryEv_isCtl _ _))
   | abort sys k => exact good_same (by simp [runFrame])
   | gc => exact good_same (ct_of_trace (by simp [runFrame]))
   | despawnWork work =>
@@ -748,7 +751,7 @@ theorem good_trans {a b c : St} (h1 : GoodEvs a b) (h2 : GoodEvs b c) : GoodEvs 
   · exact g1 e h
 
 theorem good_startTop (s : St) (t : Nat) (op : TopOp) : GoodEvs s (startTop s t op) := by
-  have he : GoodEvs s (s.emit (.top t)) := good_same (ct_emit_quiet _ _ rfl)
+  have he : GoodEvs s (s.emit (.top t)) := good_same (ct_emit_quiet _ _ (by first | rfl | exact canaryEv_isCtl _ _))
   unfold startTop
   cases op <;> dsimp only
   case acts => exact he
@@ -764,8 +767,8 @@ theorem good_startTop (s : St) (t : Nat) (op : TopOp) : GoodEvs s (startTop s t 
   case wSysEvent sys ty pid =>
     refine good_trans (good_trans he ?_) (good_applyCmd _ _)
     exact good_same ((ct_of_trace (by simp [St.fresh])).trans (ct_emit_quiet _ (Ev.send pid) rfl))
-  case wBroadcast ty pid => exact good_trans (good_trans he (good_same (ct_emit_quiet _ _ rfl))) (good_applyCmd _ _)
-  case wEntityEvent e ty pid => exact good_trans (good_trans he (good_same (ct_emit_quiet _ _ rfl))) (good_applyCmd _ _)
+  case wBroadcast ty pid => exact good_trans (good_trans he (good_same (ct_emit_quiet _ _ (by first | rfl | exact canaryEv_isCtl _ _)))) (good_applyCmd _ _)
+  case wEntityEvent e ty pid => exact good_trans (good_trans he (good_same (ct_emit_quiet _ _ (by first | rfl | exact canaryEv_isCtl _ _)))) (good_applyCmd _ _)
   case sigPrepare e => exact he
   case sigClone a => split <;> first | exact he | exact good_trans he (good_same (ct_of_trace (by simp)))
   case sigDrop a => split <;> first | exact he | exact good_trans he (good_same (by simp))
